@@ -118,4 +118,16 @@ CHECKS["C09"] = {
     "assumptions": COMMON_ASSUMPTIONS + ["hooks verif_set_system_load / verif_set_cpu_usage stand in for the collectors (init is never called, so no collector thread runs)"],
 }
 
+CHECKS["C10"] = {
+    "package": "seq", "bin": "c10", "flavor": "seq",
+    "shards": {"quick": 4, "thorough": 16},
+    "level": "exploration",
+    "technique": "runtime monitoring: reference-map oracle updated by the same generated operation history as the real rule manager; reported rules, enforcing objects and (flow, isolation) real admission decisions compared after every operation; panics caught per call, process restarted after one",
+    "rule": "cases = one rule family (flow, isolation, hotspot, circuit breaker, system in turn) x 2-3 fresh resources x a pool of valid rules, invalid rules and twins (same content, new id) x an operation history of length 2..12 over {load_rules, re-load the very same list, load_rules_of_resource, append_rule, clear_rules, clear_rules_of_resource}. Non-trivial iff the history replaced a non-empty rule set or appended to a resource that already had rules; distinct = distinct (family, #resources, #appends onto existing rules, invalid rule given?, twin appended?, identical reload?, #replacements)",
+    "level_text": "After every operation get_rules(), get_rules_of_resource(), the rules bound to controllers/breakers and - for flow and isolation - the number of requests really admitted at a fresh instant must equal what the reference map (valid rules of the last replacement plus appends, per resource, as sets under rule equality) prescribes; return values are asserted only where no duplicates are involved; exploration.",
+    "level_note": "Rule equality is my own rendering of the rule's content fields without the id. Rules whose resource differs from the one given to load_rules_of_resource are not generated (outside the quantifier).",
+    "design_ref": "DESIGN.md §5 C10",
+    "assumptions": COMMON_ASSUMPTIONS + ["a log sink at trace level is installed, as any real user has a logger"],
+}
+
 NOT_APPLICABLE = {}
